@@ -314,8 +314,18 @@ func c06RunKind(t *testing.T, rt *rapid.T, rec *verifx.Recorder, txn bool, kind 
 		nMut := dry.tc.rec.MutationCount() - mut0
 		dryRec := dry.tc.rec
 		if !r.ok() {
+			// a request refused without any fault: whatever the reason, nothing generated may be left behind
+			if sig, msg := dry.invariant(tokensBefore); sig != "" {
+				dry.tc.shutdown()
+				rec.Violation(rt, sig+":request-refused-without-fault", map[string]any{"kind": kind, "answer": r.String()}, "the request %s failed without any fault (%v) and: %s", kind, r, msg)
+				return
+			}
 			dry.tc.shutdown()
-			t.Fatalf("harness: fault-free request %s failed: %v", kind, r)
+			if kind != "secret-odd-path" {
+				t.Fatalf("harness: fault-free request %s failed: %v", kind, r)
+			}
+			rec.Class("odd-path-refused-cleanly", 1)
+			return
 		}
 		if sig, msg := c06Outcome(dry, kind, r); sig != "" {
 			dry.tc.shutdown()
